@@ -74,6 +74,11 @@ CHECKS = {
     note="Trusts TLC/SANY, Go toolchain, VerifClearExpired hook, os.Chtimes and a wall clock that does not jump by seconds during a case.",
     technique="TLA+ spec (Retention) enumerated by TLC; every population replayed on the real retention scan",
     design="4/C14", engine="retention"),
+ "C03": dict(
+    text="SyncPath.tla models the event and buffer pools, formatting, the hand-over of bytes to a sink that consumes them in chunks, and over-cap buffers; TLC checks PoolDiscipline, NoAliasedReuse, WholeLines, OneLinePerEvent for 3 goroutines / 2 buffers and confirms that the as-built variant (bytes alias the pooled buffer) still yields its counterexample. Binding B: 30 (quick) / 120 (thorough) real runs with 2-64 goroutines, both layouts, five sink kinds and line sizes up to 3x the buffer-reuse cap are recorded through the pool hooks and sink instrumentation (backing-array identity, sequence numbers drawn inside the hooks) and TLC validates every event against Trace_SyncPath.tla (no sink write on the array of a pooled/foreign buffer, no double hold, no appender handed a pooled event); the sinks' content is compared as a multiset with the same events formatted alone, each Write call being one whole line. Binding A: the model's counterexample schedule is forced with GOMAXPROCS(1) and a sink that lets a second goroutine log mid-write. Corrupted traces (one field changed, one hook line dropped) must be rejected in every run.",
+    note="Trusts TLC/SANY, Go toolchain, pool hooks, GC disabled during recording (addresses identify objects). File and rolling sinks are checked by content only. Real-concurrency runs sample schedules; the trace invariants are schedule-independent.",
+    technique="TLA+ spec (SyncPath) model-checked with TLC; recorded executions validated by TLC against Trace_SyncPath; gated replay of the counterexample schedule",
+    design="4/C03", engine="syncrec"),
 }
 
 NOT_YET = {}
